@@ -453,7 +453,7 @@ class AuthHandler:
                                 m = Message()
                                 m.add_byte(cMSG_USERAUTH_GSSAPI_TOKEN)
                                 m.add_string(next_token)
-                                self.transport.send_message(m)
+                                self.transport._send_message(m)
                     else:
                         raise SSHException(
                             "Received Package: {}".format(MSG_NAMES[ptype])
